@@ -216,6 +216,20 @@ class _Rename(ast.NodeTransformer):
             n.name = self.m[n.name]
         return n
 
+    def visit_FunctionDef(self, n):
+        # a closure of the helper: its name is a local of the helper; names it binds itself (parameters, locals) shadow the helper's
+        if n.name in self.m:
+            n.name = self.m[n.name]
+        own = _locals_of(n)
+        inner = _Rename({k: v for k, v in self.m.items() if k not in own})
+        n.decorator_list = [self.visit(d) for d in n.decorator_list]
+        n.args.defaults = [self.visit(d) for d in n.args.defaults]
+        n.args.kw_defaults = [self.visit(d) if d is not None else None for d in n.args.kw_defaults]
+        n.body = [inner.visit(s_) for s_ in n.body]
+        return n
+
+    visit_AsyncFunctionDef = visit_FunctionDef
+
 
 def _locals_of(fn):
     names = {x.arg for x in fn.args.posonlyargs + fn.args.args + fn.args.kwonlyargs}
@@ -224,15 +238,25 @@ def _locals_of(fn):
     if fn.args.kwarg:
         names.add(fn.args.kwarg.arg)
     glob = set()
-    for x in ast.walk(fn):
+    # the function's own scope: a closure defined in it contributes its name, not its own locals
+    todo = list(fn.body)
+    while todo:
+        x = todo.pop()
         if isinstance(x, ast.Name) and isinstance(x.ctx, (ast.Store, ast.Del)):
             names.add(x.id)
         elif isinstance(x, ast.ExceptHandler) and x.name:
             names.add(x.name)
         elif isinstance(x, (ast.Global, ast.Nonlocal)):
             glob |= set(x.names)
-        elif isinstance(x, FuncT) and x is not fn:
+        elif isinstance(x, FuncT + (ast.ClassDef,)):
             names.add(x.name)
+            todo.extend(x.decorator_list)
+            if isinstance(x, FuncT):
+                todo.extend(d for d in x.args.defaults + x.args.kw_defaults if d is not None)
+            continue
+        elif isinstance(x, ast.Lambda):
+            continue
+        todo.extend(ast.iter_child_nodes(x))
     return names - glob
 
 
@@ -1017,6 +1041,45 @@ def specialise_tables(P):
     return n
 
 
+def _adopt_returned_closures(fn):
+    """an expanded factory helper (`def make(..): def inner(..): ..; return inner`) leaves `def inner__hN(..): ..` and `target = inner__hN`
+    in the caller: when that is the only use of the generated name and `target` has no other binding, the closure is simply defined
+    under the target's name"""
+    import re as _re
+    gen = [x for x in ast.walk(fn) if isinstance(x, FuncT) and x is not fn and _re.search(r'__h\d+$', x.name)]
+    for g in gen:
+        uses = [x for x in ast.walk(fn) if isinstance(x, ast.Name) and x.id == g.name]
+        if len(uses) != 1 or not isinstance(uses[0].ctx, ast.Load):
+            continue
+        hit = None
+
+        def find(stmts):
+            nonlocal hit
+            for i, s_ in enumerate(stmts):
+                if isinstance(s_, ast.Assign) and s_.value is uses[0] and len(s_.targets) == 1 and isinstance(s_.targets[0], ast.Name):
+                    hit = (stmts, i)
+                    return
+                if isinstance(s_, FuncT + (ast.ClassDef,)):
+                    continue
+                for fld in ('body', 'orelse', 'finalbody'):
+                    b = getattr(s_, fld, None)
+                    if isinstance(b, list) and b and isinstance(b[0], ast.stmt):
+                        find(b)
+                for h in getattr(s_, 'handlers', []) or []:
+                    find(h.body)
+        find(fn.body)
+        if hit is None:
+            continue
+        stmts, i = hit
+        tname = stmts[i].targets[0].id
+        others = [x for x in ast.walk(fn) if isinstance(x, ast.Name) and x.id == tname and isinstance(x.ctx, (ast.Store, ast.Del)) and x is not stmts[i].targets[0]]
+        if others or any(isinstance(x, FuncT) and x.name == tname for x in ast.walk(fn) if x is not fn) \
+                or any(isinstance(x, ast.arg) and x.arg == tname for x in ast.walk(fn.args)):
+            continue
+        g.name = tname
+        del stmts[i]
+
+
 def normalise_calls(P):
     base = baseline()
     stats = {'keywords_reordered': 0, 'expanded': [], 'functions_with_new_constants': inline_new_constants(P)}
@@ -1055,7 +1118,10 @@ def normalise_calls(P):
                 f.node.body = _process_block(P, f, f.node.body, new, state)
                 if len(state['expanded']) > n0:
                     from .canon import canonicalise_function
+                    _adopt_returned_closures(f.node)
                     canonicalise_function(f.node, generated=True)
+                    # closures that came with an expanded factory helper now live in this function
+                    P._collect_nested(f.mod, f.cls, f.node, q, f.path)
             # a new helper every use of which was expanded no longer exists as a unit of the program the rules see: its statements are
             # judged where they now stand (in the callers), not a second time out of context
             used = {t for (_, t) in state['expanded']}
@@ -1079,8 +1145,10 @@ def normalise_calls(P):
                 name = t.split('.')[-1].strip('<>')
                 if not any(refs(tree, name) for (_, tree, _) in P.mods.values()):
                     absorbed[t] = P.funcs[t]
-            for t in absorbed:
+            for t in list(absorbed):
                 del P.funcs[t]
+                for k in [k for k in P.funcs if k.startswith(t + '.<')]:
+                    absorbed[k] = P.funcs.pop(k)       # its closures were copied into the callers
             P.absorbed_funcs = absorbed
             stats['absorbed'] = sorted(absorbed)
             # integrity of the expansion: every generated name that is read is also bound in the same function
@@ -1091,7 +1159,7 @@ def normalise_calls(P):
                     continue
                 loads = {x.id for x in ast.walk(f.node) if isinstance(x, ast.Name) and isinstance(x.ctx, ast.Load) and _re.search(r'__h\d+$', x.id)}
                 stores = {x.id for x in ast.walk(f.node) if isinstance(x, ast.Name) and isinstance(x.ctx, (ast.Store, ast.Del))} | \
-                         {a.arg for a in ast.walk(f.node) if isinstance(a, ast.arg)}
+                         {a.arg for a in ast.walk(f.node) if isinstance(a, ast.arg)} | {x.name for x in ast.walk(f.node) if isinstance(x, FuncT)}
                 if loads - stores:
                     from .loader import AnalysisError
                     raise AnalysisError(f'{q}: helper expansion left {sorted(loads - stores)} unbound (analyser fault, no verdict)')
